@@ -290,7 +290,7 @@ func checkC13(c *Ctx) {
 	}
 
 	// ---- C13-UNFIN and C13-FLUSH: the end-of-text path at depth 0
-	checkC13End(c, lexerT)
+	checkC13End(c, lexerT, "C13")
 
 	// ---- C13-CONS
 	tokensF := c.mustField("C13-CONS", "Lexer", "tokens")
@@ -396,17 +396,17 @@ func firstN(xs []string, n int) []string {
 // error, (FLUSH) a lexer routine that can reach dumpBuffer must run before the
 // reply is sent, and (UNFIN) every in-literal lexer state without a begin
 // token must be consulted there.
-func checkC13End(c *Ctx, lexerT *types.Named) {
-	pi := c.mustFn("C13-FLUSH", "Parser.ParsingIter")
-	dump := c.mustFn("C13-FLUSH", "Lexer.dumpBuffer")
-	lexNext := c.mustFn("C13-UNFIN", "Lexer.LexNextRune")
-	stateF := c.mustField("C13-UNFIN", "Lexer", "state")
-	appendTok := c.mustFn("C13-UNFIN", "Lexer.AppendToken")
+func checkC13End(c *Ctx, lexerT *types.Named, pfx string) {
+	pi := c.mustFn(pfx+"-FLUSH", "Parser.ParsingIter")
+	dump := c.mustFn(pfx+"-FLUSH", "Lexer.dumpBuffer")
+	lexNext := c.mustFn(pfx+"-UNFIN", "Lexer.LexNextRune")
+	stateF := c.mustField(pfx+"-UNFIN", "Lexer", "state")
+	appendTok := c.mustFn(pfx+"-UNFIN", "Lexer.AppendToken")
 	if pi == nil || dump == nil || lexNext == nil || stateF == nil || appendTok == nil {
 		return
 	}
 	if len(pi.AnonFuncs) != 1 {
-		c.undecided("C13-FLUSH", "Parser.ParsingIter", "closure", pi.Pos(), "expected exactly one closure in ParsingIter")
+		c.undecided(pfx+"-FLUSH", "Parser.ParsingIter", "closure", pi.Pos(), "expected exactly one closure in ParsingIter")
 		return
 	}
 	cl := pi.AnonFuncs[0]
@@ -425,7 +425,7 @@ func checkC13End(c *Ctx, lexerT *types.Named) {
 			reach[g] = true
 		}
 	}
-	c.check(reach[dump], "C13-FLUSH", "Parser.ParsingIter$1", "flush pending atom at end of text", cl.Pos(),
+	c.check(reach[dump], pfx+"-FLUSH", "Parser.ParsingIter$1", "flush pending atom at end of text", cl.Pos(),
 		"the end-of-text path calls a lexer routine that reaches dumpBuffer",
 		"nothing on the top-level end-of-text path flushes the lexer's atom buffer: the last token of a text that does not end in a delimiter is lost")
 	// after a flush that produced a token, the loop must parse again: the
@@ -471,7 +471,7 @@ func checkC13End(c *Ctx, lexerT *types.Named) {
 				}
 			}
 		})
-		c.check(again, "C13-FLUSH", "Parser.ParsingIter$1", "parse again after flush", cl.Pos(),
+		c.check(again, pfx+"-FLUSH", "Parser.ParsingIter$1", "parse again after flush", cl.Pos(),
 			"when the flush produced a token the loop parses it before replying",
 			"the flushed token is never parsed: after the flush reports a token the loop does not return to ParseExpression")
 	}
@@ -493,7 +493,7 @@ func checkC13End(c *Ctx, lexerT *types.Named) {
 		}
 	}
 	if len(literalStates) < 6 {
-		c.undecided("C13-UNFIN", "LexerState", "in-literal states", token.NoPos, fmt.Sprintf("only %d in-literal lexer states recognised by name", len(literalStates)))
+		c.undecided(pfx+"-UNFIN", "LexerState", "in-literal states", token.NoPos, fmt.Sprintf("only %d in-literal lexer states recognised by name", len(literalStates)))
 	}
 	// states announced by a begin token: a store of the state constant in LexNextRune with AppendToken in the same block
 	announced := map[int64]bool{}
@@ -566,11 +566,11 @@ func checkC13End(c *Ctx, lexerT *types.Named) {
 		}
 		switch {
 		case ann:
-			c.ok("C13-UNFIN", "Lexer.LexNextRune", n, lexNext.Pos(), "entering the state appends a begin token, so the parser waits for the end token")
+			c.ok(pfx+"-UNFIN", "Lexer.LexNextRune", n, lexNext.Pos(), "entering the state appends a begin token, so the parser waits for the end token")
 		case consulted[v]:
-			c.ok("C13-UNFIN", "Parser.ParsingIter$1", n, cl.Pos(), "the end-of-text path tests for this state")
+			c.ok(pfx+"-UNFIN", "Parser.ParsingIter$1", n, cl.Pos(), "the end-of-text path tests for this state")
 		default:
-			c.bad("C13-UNFIN", "Lexer.LexNextRune", n, lexNext.Pos(),
+			c.bad(pfx+"-UNFIN", "Lexer.LexNextRune", n, lexNext.Pos(),
 				"the lexer can be inside an unfinished literal ("+n+") with nothing announcing it to the parser and nothing on the end-of-text path testing for it: the text so far is an unfinished prefix but no more-input request is made")
 		}
 	}
